@@ -100,7 +100,7 @@ def run(ctx):
     for idx in ctx.cases(quick=110, thorough=450):
         rng = ctx.rng(idx)
         ctx.reseed_global(idx)
-        h = model.gen_history(rng, ndocs=(5, 70) if rng.random() < 0.6 else (60, 200), boosts=True, maxlen=8, burst=rng.choice([0.0, 0.05, 0.15]))
+        h = model.gen_history(rng, ndocs=(5, 70) if rng.random() < 0.6 else (60, 200), boosts="fractional", maxlen=8, burst=rng.choice([0.0, 0.05, 0.15]))
         h["blocklimit"] = rng.choice([2, 2, 4, 16, 128])
         wname, wobj = gen_weighting(rng)
         wb = {"history": {"commits": [len(c) for c in h["commits"]], "deletes": len(h["deletes"]),
